@@ -88,3 +88,10 @@ impl Locator {
     #[verifier::external_body]
     pub fn new(txid: Txid) -> (r: Locator) ensures r == locator_spec(txid) { unimplemented!() }
 }
+
+// Display for the id stand-ins, so that formatted messages (log!, panic!, unreachable!) that mention them type-check
+impl std::fmt::Display for Txid { #[verifier::external_body] fn fmt(&self, f: &mut std::fmt::Formatter<'_>) -> std::fmt::Result { unimplemented!() } }
+impl std::fmt::Display for BlockHash { #[verifier::external_body] fn fmt(&self, f: &mut std::fmt::Formatter<'_>) -> std::fmt::Result { unimplemented!() } }
+impl std::fmt::Display for Locator { #[verifier::external_body] fn fmt(&self, f: &mut std::fmt::Formatter<'_>) -> std::fmt::Result { unimplemented!() } }
+impl std::fmt::Display for UUID { #[verifier::external_body] fn fmt(&self, f: &mut std::fmt::Formatter<'_>) -> std::fmt::Result { unimplemented!() } }
+impl std::fmt::Display for UserId { #[verifier::external_body] fn fmt(&self, f: &mut std::fmt::Formatter<'_>) -> std::fmt::Result { unimplemented!() } }
